@@ -125,8 +125,8 @@ class Presence:
         out = []
         for n in walk_no_nested(f, False):
             if isinstance(n, ast.Subscript) and isinstance(n.ctx, ast.Load) \
-                    and "fit_properties" in norm(n.value) and \
-                    const_str(n.slice):
+                    and norm(n.value).endswith(("fit_properties", ".fp")) \
+                    and const_str(n.slice):
                 k = const_str(n.slice)
                 if k not in self.facts_at(n):
                     out.append((k, n, (name,)))
